@@ -34,11 +34,12 @@ CLAIM = {
 SCRIPTS = {
     "stream": [0, 2, 2, 2, 4],
     "newdef": [0, 2, 1, 2, 2, 4],
+    "newdef2": [0, 2, 2, 1, 2, 4],
     "flush": [0, 2, 2, 3, 2, 4],
     "srcfirst": [0, 2, 5, 2, 4],
     "pseudo": [10, 0, 2, 11, 2, 4],
 }
-BURSTS = [[7], [9], [7, 9, 7], [9, 7], [8], [7, 7]]
+BURSTS = [[7], [9], [7, 9, 7], [7, 9], [9, 7], [8], [7, 7]]
 
 
 def schedules(script, bursts, k):
@@ -76,12 +77,15 @@ def build(tier):
         plan += [("stream", 1, s) for s in schedules(SCRIPTS["stream"], BURSTS[:2], 2)]
         plan += [("stream", 2, s) for s in schedules(SCRIPTS["stream"], BURSTS[:2], 2)][::2]
         plan += [("srcfirst", 1, s) for s in schedules(SCRIPTS["srcfirst"], BURSTS[:2], 1)]
+        # a change of flow definition while the queue is exactly full and the sink holds nothing
+        plan += [("newdef", 2, SCRIPTS["newdef"])] + [("newdef", 2, s) for s in schedules(SCRIPTS["newdef"], BURSTS[:2], 1)]
+        plan += [("newdef", 1, s) for s in schedules(SCRIPTS["newdef"], BURSTS[3:4], 1)] + [("newdef2", 2, s) for s in schedules(SCRIPTS["newdef2"], BURSTS[:1], 1)]
     else:
-        for nm in ("stream", "newdef", "flush", "srcfirst"):
+        for nm in ("stream", "newdef", "newdef2", "flush", "srcfirst"):
             for ln in (1, 2):
                 plan += [(nm, ln, s) for s in schedules(SCRIPTS[nm], BURSTS, 1)]
-                plan += [(nm, ln, s) for s in schedules(SCRIPTS[nm], BURSTS[:4], 2)]
-        plan += [("stream", 1, s) for s in schedules(SCRIPTS["stream"], BURSTS[:3], 3)]
+                plan += [(nm, ln, SCRIPTS[nm])] + [(nm, ln, s) for s in schedules(SCRIPTS[nm], BURSTS[:4] if ln == 1 else BURSTS[:2], 2)]
+        plan += [("stream", 1, s) for s in schedules(SCRIPTS["stream"], BURSTS[:2], 3)]
     for i, (nm, ln, ops) in enumerate(plan):
         name = "queue_%s_len%d_%s" % (nm, ln, "-".join(map(str, ops)))
         if name in seen:
